@@ -659,6 +659,7 @@ def dict_case(rng):
 
 def dict_build(case):
     from ebpfcat.ebpf import EBPF, Structure, Member, LocalVar
+    key_classes = {}
     from ebpfcat.hashmap import HashMap, Dict
     from ebpfcat.bpf import ProgType
     sim = sim_bpf.BpfSim()
@@ -674,7 +675,11 @@ def dict_build(case):
                     hms[m] = ns[f"hm{m}"] = HashMap()
                 ns[it[1]] = hms[m].globalVar(it[2], default=0)
             else:
-                Key = type("Key", (Structure,), {f"k{i}": Member(f) for i, f in enumerate(it[2])})
+                # Dicts of one program whose keys have the same member formats share ONE Key class (as a program re-using a structure
+                # for several tables does); each Dict still has a key area of its own
+                Key = key_classes.get(tuple(it[2]))
+                if Key is None:
+                    Key = key_classes[tuple(it[2])] = type("Key", (Structure,), {f"k{i}": Member(f) for i, f in enumerate(it[2])})
                 # every second Dict with two or more value members: the value structure EXTENDS a base structure holding the first
                 # member (same members, same order - the layout must be the same as that of the flat structure)
                 if len(it[3]) >= 2 and len(it[1]) % 2 == 0:
